@@ -74,15 +74,15 @@ theorem sumTo_add (n : Nat) (f g : Nat → Nat) : sumTo n (fun k => f k + g k) =
 
 def iPlus (P : Prog) : Instr → Nat
   | .decCount => 1
-  | .create k => if P.managed k then 1 else 0
-  | .act (.launch k) => if P.managed k then 1 else 0
+  | .create k _ _ => if P.managed k then 1 else 0
+  | .act (.launch k _ _) => if P.managed k then 1 else 0
   | .joinAndFree l => l.length
   | _ => 0
 
 def iMinus (P : Prog) : Instr → Nat
   | .incCount => 1
   | .joinM _ => 1
-  | .act (.launch k) => if P.managed k then 1 else 0
+  | .act (.launch k _ _) => if P.managed k then 1 else 0
   | .joinAndFree l => l.length
   | _ => 0
 
